@@ -580,6 +580,7 @@ fn run_expected(rep: &Report, label: &str, cases: Vec<String>, expects: Vec<Opti
         let summary = format!("{} with {}", v["definition"].as_str().unwrap(), v["resources"].as_array().unwrap().iter()
             .map(|r| format!("{}={}", r[0].as_str().unwrap(), r[1].as_str().unwrap())).collect::<Vec<_>>().join("; "));
         match res {
+            WorkerOutcome::Skipped => rep.not_exhaustive("more than 200 cases of a worker space hung: the rest of that space was not run"),
             WorkerOutcome::Timeout => rep.violation(
                 &format!("instantiation does not return (watchdog) / {label}"),
                 json!({"kind": "worker", "case": v, "summary": summary}),
@@ -693,6 +694,7 @@ fn depth_sweeps(rep: &Report, max_depth: usize) {
             rep.trace(1);
             let want = format!("OK 1 {}", exp.unwrap() as f64);
             match res {
+                WorkerOutcome::Skipped => rep.not_exhaustive("more than 200 cases of a worker space hung: the rest of that space was not run"),
                 WorkerOutcome::Answer(a) if *a == want => deepest_ok = n as i64,
                 WorkerOutcome::Answer(a) if a.starts_with("ERR") => {
                     if first_rejected.is_none() {
